@@ -88,6 +88,9 @@ class Pool:
         self.mappings: list = [self.mapping]
         self.mappings_seen: list = [self.mapping_state(self.mapping)]
         self.appended: set = set()
+        # objects that are snapshotted and re-inspected like pool items but never handed to later operations
+        # (documents rebuilt under another Schema object for HTML conversion)
+        self.watched: list[dict] = []
         self.tr: Any = None
         self.tr_seen: dict = {"steps": [], "docs": [], "maps": []}
 
@@ -120,6 +123,10 @@ class Pool:
             return
         self.items.append({"kind": kind, "obj": obj, "snap": copy.deepcopy(self.snap(kind, obj)), "origin": origin})
 
+    def watch(self, kind: str, obj: Any, origin: str) -> None:
+        if len(self.watched) < 10:
+            self.watched.append({"kind": kind, "obj": obj, "snap": copy.deepcopy(self.snap(kind, obj)), "origin": origin})
+
     def of(self, kind: str) -> list[int]:
         return [i for i, it in enumerate(self.items) if it["kind"] == kind]
 
@@ -127,7 +134,7 @@ class Pool:
         from prosemirror.model import Fragment, Mark, Slice
         from prosemirror.transform import StepMap
 
-        for i, it in enumerate(self.items):
+        for i, it in enumerate(self.items + self.watched):
             try:
                 now = self.snap(it["kind"], it["obj"])
             except Exception as e:  # noqa: BLE001
@@ -527,9 +534,25 @@ def run_op(pool: Pool, op: dict) -> None:
         nd = _guard(Node.from_json, real, d.to_json())
         if nd is None:
             return
+        pool.watch("node", nd, "Node.from_json (HTML schema)")
         ser = _guard(DOMSerializer.from_schema, real)
         if ser is None:
             return
+        if op.get("live_attrs"):
+            # a schema whose toDOM hands the node's / mark's own attrs dict to the serializer (["img", node.attrs],
+            # ["a", mark.attrs, 0] - a common way to write toDOM): the output spec is the caller's data
+            def live(fn):  # noqa: ANN001, ANN202
+                def to_dom(obj, *rest):  # noqa: ANN001, ANN002, ANN202
+                    st = fn(obj, *rest)
+                    if isinstance(st, list) and st and isinstance(st[0], str) and obj.attrs:
+                        if len(st) > 1 and isinstance(st[1], dict):
+                            return [st[0], obj.attrs, *st[2:]]
+                        return [st[0], obj.attrs, *st[1:]]
+                    return st
+
+                return to_dom
+
+            ser = DOMSerializer({k: (v if k == "text" else live(v)) for k, v in ser.nodes.items()}, {k: live(v) for k, v in ser.marks.items()})
         html = _guard(lambda: str(ser.serialize_fragment(nd.content)))
         if html is not None:
             parsed = _guard(lambda: DOMParser.from_schema(real).parse(_parse_html(html)))
@@ -648,6 +671,7 @@ def generate(R: Draw, tier: str) -> dict:
             op.update({"frag": R.choice(pool.of("frag")), "with_content": R.bool(0.5)})
         elif k == "html":
             op["bundled"] = case["bundled"]
+            op["live_attrs"] = R.bool(0.5)
         case["prog"].append(op)
         try:
             run_op(pool, op)
